@@ -235,6 +235,32 @@ def check_glob(ctx, tr, rng, k, j, mon, toks=None, fn=None):
                 break
             ctx.evals()
             ctx.count('realpath_link_candidates')
+            # the rule does not depend on how the call is spelled: an exclusion that excludes nothing, the root as dir_fd,
+            # a compiled matcher, the filter form, bytes
+            if k % 2 == 0 or j % 3 == 0:
+                fd = os.open(root, os.O_RDONLY)
+                try:
+                    variants = [
+                        ('exclude= that matches nothing', lambda: G.globmatch(c, text, flags=flags | G.REALPATH, root_dir=root, exclude='zz-none*')),
+                        ('inline exclusion that matches nothing', lambda: G.globmatch(c, [text, '!zz-none*'], flags=flags | G.REALPATH | G.NEGATE, root_dir=root)),
+                        ('dir_fd', lambda: G.globmatch(c, text, flags=flags | G.REALPATH, dir_fd=fd)),
+                        ('dir_fd + exclude=', lambda: G.globmatch(c, text, flags=flags | G.REALPATH, dir_fd=fd, exclude='zz-none*')),
+                        ('compiled matcher', lambda: G.compile(text, flags=flags | G.REALPATH).match(c, root_dir=root)),
+                        ('globfilter', lambda: bool(G.globfilter([c], text, flags=flags | G.REALPATH, root_dir=root))),
+                        ('bytes', lambda: G.globmatch(os.fsencode(c), os.fsencode(text), flags=flags | G.REALPATH, root_dir=os.fsencode(root))),
+                    ]
+                    for what, call_ in variants:
+                        try:
+                            mv = call_()
+                        except Exception as e:  # noqa: BLE001
+                            mv = f'raised {type(e).__name__}'
+                        ctx.count('realpath_spelling_variants')
+                        if mv != m:
+                            ctx.disagree(f'globmatch(REALPATH) answers differently through another spelling of the same call: {what}',
+                                         dict(wit, candidate=c, plain=m, variant=mv, spelling=what))
+                            break
+                finally:
+                    os.close(fd)
             pos = symlink_positions(root, c)
             through = min(pos) < len(c.split('/')) - 1
             if m and through and c not in loose:
